@@ -29,7 +29,7 @@ def acceptedNext (σ : C04qSt) : Label → Bool
   | _ => σ.stopAccepted
 
 def sendMsg? : OpKind → Option Nat
-  | .send m | .trySend m => some m
+  | .send m | .trySend m | .tryForce m => some m
   | _ => none
 
 def callMsg? : OpKind → Option Nat
